@@ -29,12 +29,7 @@ def run(path):
 KNOWN_UNPROVEN = {
     "ben6-2.diff": "open-note scan moved to a helper returning the element (caller tests `is not None`), lane loop with an explicit if instead of filter()",
     "ben14-1.diff": "grouping rewritten as a different algorithm (for right in range(1, n+1) with continue) inside a generator: not in the S1 family",
-    "ben16-1.diff": "metadata helpers promoted to module level (kwargs and lines passed as parameters)",
-    "ben16-2.diff": "metadata helper signatures changed (spec object passed instead of the field name)",
     "ben22-4.diff": "grouping rewritten as a third algorithm (for i in range(1, n) with continue, a second yield after the loop) inside a generator",
-    "ben24-1.diff": "metadata helpers promoted to module level (kwargs and lines passed as parameters)",
-    "ben8-1.diff": "metadata line scan moved to a method of the field-spec class",
-    "ben8-2.diff": "metadata setters restructured around a `required` flag",
 }
 bad = 0
 with ThreadPoolExecutor(8) as ex:
